@@ -1197,6 +1197,13 @@ def _kf_c04(self, tier):
              'prog': {'family': 'fld', 'type': {'p': 5, 'd': 1, 'how': 'order'},
                       'stmts': [['input', ['v1'], [], {'sender': 1, 'value': 2, 'dummy': 1}], ['to_bits', ['v2'], ['v1'], {}]],
                       'outputs': ['v1']}},
+            # finding from-bits-lifted-field
+            {'family': 'fld', 'cfg': _cfgj(3, 1),
+             'prog': {'family': 'fld', 'type': {'p': 3, 'd': 1, 'how': 'order'},
+                      'stmts': [['input', ['v1'], [], {'sender': 1, 'value': 0, 'dummy': 0}],
+                                ['input', ['v2'], [], {'sender': 1, 'value': 1, 'dummy': 1}],
+                                ['mklist', ['v3'], ['v1', 'v2'], {}], ['from_bits', ['v4'], ['v3'], {}]],
+                      'outputs': ['v4']}},
             # regression cases of the fixed findings lifted-field-public-int-operand / -subfield-operand (must pass)
             {'family': 'fld', 'cfg': _cfgj(3, 1),
              'prog': {'family': 'fld', 'type': {'p': 3, 'd': 1, 'how': 'order'},
